@@ -1,3 +1,4 @@
+(* (intermediate results are kept reduced with Qred: same rational numbers, bounded size) *)
 (* Base/Pchip.v — SciPy's PchipInterpolator over Q (scipy/interpolate/_cubic.py): Fritsch-Carlson
    harmonic-mean interior slopes, the three-point end rule with its two sign guards, cubic Hermite
    evaluation, extrapolation with the end polynomials.  All operations are rational, so the model
@@ -10,13 +11,13 @@ Open Scope Q_scope.
 Definition qsgn (x : Q) : Z := match Qcompare x 0 with Lt => (-1)%Z | Eq => 0%Z | Gt => 1%Z end.
 
 Fixpoint hs (xs : list Q) : list Q :=
-  match xs with a :: ((b :: _) as r) => (b - a) :: hs r | _ => [] end.
+  match xs with a :: ((b :: _) as r) => Qred (b - a) :: hs r | _ => [] end.
 Fixpoint ms (pts : list (Q * Q)) : list Q :=
-  match pts with (x0, y0) :: (((x1, y1) :: _) as r) => ((y1 - y0) / (x1 - x0)) :: ms r | _ => [] end.
+  match pts with (x0, y0) :: (((x1, y1) :: _) as r) => Qred ((y1 - y0) / (x1 - x0)) :: ms r | _ => [] end.
 
 (* _edge_case(h0, h1, m0, m1) *)
 Definition edge (h0 h1 m0 m1 : Q) : Q :=
-  let d := ((2 * h0 + h1) * m0 - h0 * m1) / (h0 + h1) in
+  let d := Qred (((2 * h0 + h1) * m0 - h0 * m1) / (h0 + h1)) in
   if negb (Z.eqb (qsgn d) (qsgn m0)) then 0
   else if negb (Z.eqb (qsgn m0) (qsgn m1)) && Qle_bool (3 * Qabs m0) (Qabs d) && negb (Qeq_bool (3 * Qabs m0) (Qabs d))
        then 3 * m0 else d.
@@ -24,7 +25,7 @@ Definition edge (h0 h1 m0 m1 : Q) : Q :=
 Definition interior (hkm1 hk mkm1 mk : Q) : Q :=
   if negb (Z.eqb (qsgn mk) (qsgn mkm1)) || Qeq_bool mk 0 || Qeq_bool mkm1 0 then 0
   else let w1 := 2 * hk + hkm1 in let w2 := hk + 2 * hkm1 in
-       1 / ((w1 / mkm1 + w2 / mk) / (w1 + w2)).
+       Qred (1 / ((w1 / mkm1 + w2 / mk) / (w1 + w2))).
 
 Fixpoint interiors (h m : list Q) : list Q :=
   match h, m with
